@@ -72,6 +72,23 @@ impl TryFrom<Msg> for DBroken {
 }
 
 /// derived type over the WRONG message type (`InvalidActorType` must come back through the converter)
+/// the call form of the narrower wrong type (carries the reply port)
+struct DWrongCall(RpcReplyPort<u64>);
+impl From<DWrongCall> for Wrong {
+    fn from(d: DWrongCall) -> Wrong {
+        Wrong::W(d.0)
+    }
+}
+impl TryFrom<Wrong> for DWrongCall {
+    type Error = ();
+    fn try_from(w: Wrong) -> Result<DWrongCall, ()> {
+        match w {
+            Wrong::W(p) => Ok(DWrongCall(p)),
+            Wrong::C => Err(()),
+        }
+    }
+}
+
 struct DWrong;
 impl From<DWrong> for Wrong {
     fn from(_: DWrong) -> Wrong {
@@ -845,7 +862,9 @@ impl World {
         Self::fmt(&pre, self.events().await)
     }
 
-    /// wrong-type send through `cast` (kind 0), `ActorCell::send_message` (1) or `call` (2)
+    /// wrong-type send through `cast` (kind 0), `ActorCell::send_message` (1), `call` (2), or through a
+    /// `DerivedActorRef` derived from the wrongly typed `ActorRef`: `cast` (3), `send_message` (4),
+    /// `call` (5), `send_after` (6)
     async fn bad(&mut self, a: usize, kind: u8) -> String {
         if a >= self.actors.len() {
             return "bad-actor".into();
@@ -872,6 +891,35 @@ impl World {
                 Ok(()) => "accepted".into(),
                 Err(_) => "other-err".into(),
             },
+            4 => {
+                // DerivedActorRef::send_message over the wrong-typed ref
+                let d: ractor::DerivedActorRef<DWrong> = wrong.get_derived();
+                match d.send_message(DWrong) {
+                    Err(ractor::MessagingErr::InvalidActorType) => "invalid-type".to_string(),
+                    Ok(()) => "accepted".into(),
+                    Err(_) => "other-err".into(),
+                }
+            }
+            5 => {
+                // DerivedActorRef::call over the wrong-typed ref
+                let d: ractor::DerivedActorRef<DWrongCall> = wrong.get_derived();
+                match d.call(DWrongCall, Some(Duration::from_millis(5))).await {
+                    Err(ractor::MessagingErr::InvalidActorType) => "invalid-type".to_string(),
+                    Ok(_) => "accepted".into(),
+                    Err(_) => "other-err".into(),
+                }
+            }
+            6 => {
+                // DerivedActorRef::send_after (zero delay) over the wrong-typed ref
+                let d: ractor::DerivedActorRef<DWrong> = wrong.get_derived();
+                let h = d.send_after(Duration::from_millis(0), || DWrong);
+                quiesce().await;
+                match h.await {
+                    Ok(Err(ractor::MessagingErr::InvalidActorType)) => "invalid-type".to_string(),
+                    Ok(Ok(())) => "accepted".into(),
+                    _ => "other-err".into(),
+                }
+            }
             _ => match wrong.call(Wrong::W, Some(Duration::from_millis(5))).await {
                 Err(ractor::MessagingErr::InvalidActorType) => "invalid-type".to_string(),
                 Ok(_) => "accepted".into(),
@@ -1018,6 +1066,9 @@ impl World {
             ["badsend", a] => self.bad(a.parse().unwrap_or(99), 1).await,
             ["badcall", a] => self.bad(a.parse().unwrap_or(99), 2).await,
             ["baddcast", a] => self.bad(a.parse().unwrap_or(99), 3).await,
+            ["baddsend", a] => self.bad(a.parse().unwrap_or(99), 4).await,
+            ["baddcall", a] => self.bad(a.parse().unwrap_or(99), 5).await,
+            ["baddafter", a] => self.bad(a.parse().unwrap_or(99), 6).await,
             ["exit", a] => self.exit(a.parse().unwrap_or(99)).await,
             ["stop", a, act] => match Act::parse(act) {
                 Some(act) => self.stop(a.parse().unwrap_or(99), act).await,
@@ -1113,7 +1164,7 @@ async fn gen_case(log: &mut Log, st: &mut Stats, rng: &mut Rng, len: u64) {
             }
             76..=83 => format!("fcall {a} {} {}{}", rng.below(na), gen_timeout(rng), *rng.pick(&["", " m", " m", " f"])),
             84..=91 => format!("advance {}", rng.pick(&[1u64, 1, 2, 3, 7])),
-            92 => format!("{} {a}", rng.pick(&["badcast", "badsend", "badcall", "baddcast"])),
+            92 => format!("{} {a}", rng.pick(&["badcast", "badsend", "badcall", "baddcast", "baddsend", "baddcall", "baddafter"])),
             93 => format!("exit {a}"),
             94 => format!("fail {a} {}", if rng.chance(1, 2) { "err" } else { "panic" }),
             95..=97 => format!("stop {a} {}", gen_act(rng).show()),
